@@ -642,6 +642,34 @@ pub fn run(opts: &Opts) -> Report {
                 if let Err(m) = r { rep.fail("panic", &format!("C19/{}/with_file-on-a-store-that-holds-something-panics", what), vec![format!("AnnotationStore (one resource) .with_file(<a valid {} store>)", what)], "Ok or Err", &m); }
             }
         }
+        // a document whose annotations carry temporary identifiers (what the library writes for annotations without
+        // a public identifier), merged into a store that holds annotations: what was there stays, what arrives is added
+        for nnew in 1..4usize {
+            for pre in 1..4usize {
+                let doc = format!("{{\"@type\": \"AnnotationStore\", \"annotations\": [{}]}}", (0..nnew).map(|k| format!("{{\"@type\": \"Annotation\", \"@id\": \"!A{}\", \"target\": {{\"@type\": \"TextSelector\", \"resource\": \"r\", \"offset\": {{\"@type\": \"Offset\", \"begin\": {{\"@type\": \"BeginAlignedCursor\", \"value\": {}}}, \"end\": {{\"@type\": \"BeginAlignedCursor\", \"value\": 11}}}}}}, \"data\": [{{\"@type\": \"AnnotationData\", \"set\": \"s\", \"key\": \"k\", \"value\": {{\"@type\": \"String\", \"value\": \"merged{}\"}}}}]}}", k, k, k)).collect::<Vec<_>>().join(", "));
+                let path = sub.join(format!("t{}_{}.store.stam.json", nnew, pre));
+                std::fs::write(&path, &doc).ok();
+                rep.count("with_file:temporary-ids-into-a-store-with-annotations");
+                rep.case(Some(&format!("with_file temp-ids {} {}", nnew, pre)));
+                let ctx = vec![format!("a store with resource r = 'hello world' and {} annotation(s) P0.. (r 0..k+1); merged into it with with_file(): {}", pre, doc)];
+                let r = guarded(std::panic::AssertUnwindSafe(|| -> Result<Vec<String>, StamError> {
+                    let mut st = AnnotationStore::default().with_id("first").with_resource(TextResourceBuilder::new().with_id("r").with_text("hello world"))?;
+                    for k in 0..pre { st.annotate(AnnotationBuilder::new().with_id(format!("P{}", k)).with_target(SelectorBuilder::textselector("r", Offset::simple(0, k + 1))).with_data("s", "k", format!("own{}", k)))?; }
+                    let st = st.with_file(path.to_str().unwrap())?;
+                    let mut v: Vec<String> = st.annotations().map(|a| format!("{}:{}:{}", a.id().unwrap_or("~"), a.text_join("|"), a.data().map(|d| d.value().to_string()).collect::<Vec<_>>().join(","))).collect();
+                    v.sort();
+                    Ok(v)
+                }));
+                let mut want: Vec<String> = (0..pre).map(|k| format!("P{}:{}:own{}", k, &"hello world"[0..k + 1], k)).collect();
+                want.extend((0..nnew).map(|k| format!("~:{}:merged{}", &"hello world"[k..11], k)));
+                want.sort();
+                match r {
+                    Ok(Ok(got)) => if got != want { rep.fail("oracle", "C19/json/with_file/temporary-ids-into-a-store-with-annotations", ctx, &format!("{:?}", want), &format!("{:?}", got)); },
+                    Ok(Err(_)) => rep.count("with_file:temporary-ids:refused"),
+                    Err(m) => rep.fail("panic", "C19/json/with_file/temporary-ids-into-a-store-with-annotations/panic", ctx, "Ok or Err", &m),
+                }
+            }
+        }
         // datasets
         let dj = sub.join("d.dataset.stam.json");
         std::fs::write(&dj, "{\"@type\": \"AnnotationDataSet\", \"@id\": \"d\", \"keys\": [{\"@type\": \"DataKey\", \"@id\": \"k\"}], \"data\": [{\"@type\": \"AnnotationData\", \"@id\": \"D1\", \"key\": \"k\", \"value\": {\"@type\": \"String\", \"value\": \"v\"}}]}").ok();
